@@ -16,6 +16,7 @@ import (
 	"encoding/json"
 	"errors"
 	"fmt"
+	"hash/fnv"
 	"sort"
 	"strconv"
 	"testing"
@@ -42,6 +43,8 @@ type Kase struct {
 	MaxProv int64             `json:"maxprov"` // MaxProviderConsensusValidators
 	Epoch   int64             `json:"epoch"`   // BlocksPerEpoch
 	Ops     []json.RawMessage `json:"ops"`
+	// NumberOfEpochsToStartReceivingRewards (0: the default of the provider parameters)
+	RewardEpochs int64 `json:"reward_epochs"`
 }
 
 var base = common.T0.Add(-1000 * time.Nanosecond)
@@ -626,7 +629,24 @@ func (d *Drv) stepTag(tag int64, parts []json.RawMessage) (common.T, int64) {
 			code = 8
 		}
 		return common.L(tag, c), code
-	case 11: // world-only actions (no model state): 1 v power | 2 c (close channel) | 3 c b (client expired)
+	case 12: // reward credit for consumer c (no lifecycle state): allocation record + registered denom + funded pool
+		c, amt := num(1), num(2)
+		if c >= 0 && c < d.NextID() {
+			denom := RewardDenom
+			env.K.SetConsumerRewardDenom(env.Ctx, denom)
+			alloc := env.K.GetConsumerRewardsAllocationByDenom
+			cur, err := alloc(env.Ctx, CID(c), denom)
+			if err != nil {
+				panic(err)
+			}
+			cur.Rewards = cur.Rewards.Add(sdk.NewDecCoins(sdk.NewDecCoin(denom, math.NewInt(amt)))...)
+			if err := env.K.SetConsumerRewardsAllocationByDenom(env.Ctx, CID(c), denom, cur); err != nil {
+				panic(err)
+			}
+			d.W.Fund(providertypes.ConsumerRewardsPool, sdk.NewCoins(sdk.NewCoin(denom, math.NewInt(amt))))
+		}
+		return common.L(11), 0
+	case 11: // world-only actions (no model state): 1 v power | 2 c (close channel) | 3 c b (client expired) | 4 c (register c's connection)
 		switch num(1) {
 		case 1:
 			v := d.W.Vals[int(num(2))%len(d.W.Vals)]
@@ -635,6 +655,16 @@ func (d *Drv) stepTag(tag int64, parts []json.RawMessage) (common.T, int64) {
 		case 2:
 			if ch, ok := d.W.Channels[ccvtypes.ProviderPortID+"/"+ChanID(num(2))]; ok {
 				ch.State = channeltypes.CLOSED
+			}
+		case 4: // register the connection named by consumer c's initialization parameters, over a client of c's chain id
+			c := num(2)
+			if ip, err := env.K.GetConsumerInitializationParameters(env.Ctx, CID(c)); err == nil && ip.ConnectionId != "" {
+				if _, known := d.W.Connections[ip.ConnectionId]; !known {
+					chain, _ := env.K.GetConsumerChainId(env.Ctx, CID(c))
+					cl := d.W.AddClient(chain, 5)
+					d.W.Connections[ip.ConnectionId] = &common.Connection{ID: ip.ConnectionId, ClientID: cl.ID,
+						CpConnectionID: "connection-0", CpClientID: "07-tendermint-0"}
+				}
 			}
 		case 3:
 			if clientID, ok := env.K.GetConsumerClientId(env.Ctx, CID(num(2))); ok {
@@ -648,6 +678,24 @@ func (d *Drv) stepTag(tag int64, parts []json.RawMessage) (common.T, int64) {
 	panic(fmt.Sprintf("unknown action %d", tag))
 }
 
+// RewardDenom is the denom of the reward credits created by action 12.
+const RewardDenom = "ibc/rewards"
+
+// AllocDigest hashes the reward-allocation records of consumer c (store prefix ConsumerRewardsAllocationByDenom).
+func (d *Drv) AllocDigest(c int64) int64 {
+	h := fnv.New64a()
+	p := providertypes.StringIdWithLenKey(providertypes.ConsumerRewardsAllocationByDenomKeyPrefix(), CID(c))
+	it := storetypes.KVStorePrefixIterator(d.store(), p)
+	defer it.Close()
+	for ; it.Valid(); it.Next() {
+		h.Write(it.Key())
+		h.Write([]byte{0})
+		h.Write(it.Value())
+		h.Write([]byte{1})
+	}
+	return int64(h.Sum64() >> 12)
+}
+
 // New builds the world, the provider environment and the interpreter for a case.
 func New(t testing.TB, k Kase) *Drv {
 	w := common.NewWorld(k.NVals)
@@ -656,6 +704,9 @@ func New(t testing.TB, k Kase) *Drv {
 	p := providertypes.DefaultParams()
 	p.BlocksPerEpoch = k.Epoch
 	p.MaxProviderConsensusValidators = k.MaxProv
+	if k.RewardEpochs > 0 {
+		p.NumberOfEpochsToStartReceivingRewards = k.RewardEpochs
+	}
 	env.InitGenesis(p)
 	return &Drv{Env: env, W: w, K: k}
 }
